@@ -45,15 +45,33 @@ def gen_cases(rng, tier):
         nli, nfw = rng.randint(2, 3), rng.randint(1, 2)
         T = rng.choice([12, 20, 30])
         cur = rng.sample(range(ns), nli) if nli <= ns else [0] * nli
+        # points in transit: farther than 1.5 A from every site (an atom may start, stay or end the run there)
+        transit = []
+        for _try in range(200):
+            q = [rng.randint(0, 63) for _ in range(3)]
+            if min(synth.min_image_d2(Gm, [Fr(q[k], 64) - Fr(p[k], 8) for k in range(3)], 2) for p in pts) > Fr(9, 4):
+                transit.append([c * 64 for c in q])
+                if len(transit) >= 4:
+                    break
+        p_transit = rng.choice([0.0, 0.15, 0.3]) if transit else 0.0
+        for a in range(nli):
+            if rng.random() < p_transit:
+                cur[a] = -1
         li = []
         for t in range(T):
             fr = []
             for a in range(nli):
                 if rng.random() < 0.25:
                     free = [k for k in range(ns) if k not in cur]
-                    if free:
+                    if rng.random() < p_transit:
+                        cur[a] = -1
+                    elif free:
                         cur[a] = rng.choice(free)
-                fr.append([pts[cur[a]][k] * 512 + rng.randint(-70, 70) for k in range(3)])
+                if cur[a] == -1:
+                    tp = transit[(a + t // 3) % len(transit)]
+                    fr.append([tp[k] + rng.randint(-20, 20) for k in range(3)])
+                else:
+                    fr.append([pts[cur[a]][k] * 512 + rng.randint(-70, 70) for k in range(3)])
             li.append(fr)
         fw0 = [[rng.randint(0, DEN - 1) for _ in range(3)] for _ in range(nfw)]
         fw = [[[fw0[b][k] + rng.randint(-30, 30) for k in range(3)] for b in range(nfw)] for _ in range(T)]
